@@ -26,10 +26,10 @@ def run(ctx):
                 % (tier, maxblocks, out, base))
     # exhaustive: every option record x every sequence of up to two blocks (measured: quick 0.7 M states / 24 s,
     # thorough entry counts 0.9 M / 23 s; three blocks exhaustively is > 11 M states and does not end in 40 min)
-    ctx.tlc("MC_CMap", cfg(ctx.tier, 2), label="cmap", timeout=2400)
+    ctx.tlc("MC_CMap", cfg(ctx.tier, 2), label="cmap", timeout=2400, xss="512m")
     if not q:
         # longer files: random sequences of up to four blocks (one behaviour = one file)
-        ctx.tlc("MC_CMap", cfg("thorough", 4), label="cmap-sim4", timeout=2400, simulate=1500, depth=20000, workers=8)
+        ctx.tlc("MC_CMap", cfg("thorough", 4), label="cmap-sim4", timeout=2400, simulate=3000, depth=20000, workers=8, xss="512m")
     vec = os.path.join(d, out)
     summ = ctx.vh_json("replay-cmap", "-base", os.path.join(d, base), "-seed", ctx.seed, vec, timeout=2400)
     if set(summ["per_op"]) != {"codespacerange", "cidchar", "cidrange", "bfchar", "bfrange", "notdefchar", "notdefrange"}:
